@@ -230,6 +230,10 @@ class OrbitWorld:
         self.cls = type(g)
         self.arr: dict[str, np.ndarray] = {}
         self.L0 = (self._keep(g.initial_state), None, None, "tight")
+        # the period the corrector finds for the tightly corrected state ("copied from another, already corrected orbit")
+        g2 = fx.new_orbit(family)
+        g2.correct()
+        self.Tc = float(g2.period)
         self.memo: dict = {}
         self.obs_memo: dict = {}
         self.n_files = 0
@@ -257,7 +261,7 @@ class OrbitWorld:
         o = h["o"]
         try:
             if op == "SetPeriod":
-                o.period = PER[arg[0]]
+                o.period = self.Tc if arg[0] == "T" else PER[arg[0]]
                 return ("none",)
             if op == "Correct":
                 r = o.correct(None if arg[0] == "default" else Fx.opts(o, arg[0]))
@@ -462,6 +466,12 @@ def live_flags(w: OrbitWorld) -> dict:
     w.do(h, "Save", [])
     w.do(h, "Load", [])
     f["LeftoverFix"] = w.do(h, "ReadTrajectory", [])[0] == "raise"
+    # a correction that changes the state but not the period (the period was pre-set to the very value the corrector finds)
+    h = {"o": w.fx.new_orbit(w.family)}
+    w.do(h, "SetPeriod", ["T", "tight"])
+    w.do(h, "Propagate", ["s1", "fixed", "o4"])
+    w.do(h, "Correct", ["default"])
+    f["CorrInvalidates"] = w.do(h, "ReadTrajectory", [])[0] == "raise"
     return f
 
 
